@@ -7,12 +7,12 @@ Driver of the trace monitor (lean_exe `drv_mon`).  Line protocol on stdin:
 * `OP <op line>`   the op about to be observed, in the syntax of `parseOp` (`Driver/Parse.lean`); prints nothing.
                    A line `parseOp` does not accept (driver-level ops: `cmp`, `asw …`, `makeMutH …`) is remembered
                    as "no op": for the following observation only the op-independent checks K1 K2 K3 K5 run
-                   (not the per-op checks K4, K6 – K13).
+                   (not the per-op checks K4, K6 – K15).
 * `OBS <observation line of the implementation>`
                    `<status> out=<out> ev=[<events>] aux=<n> | <slot probes>` (each probe
                    `s<i>=<kind>.<ty>@b<blk>+<off>/len<len>/cnt<count>/<digest>`, the digest is parsed too: K7, K9, K10, K11
                    use what a handle shows; for a `cb` op the `out=` field is split into tokens, `parseCbToks`: K12, K13);
-                   runs `M1.Mon.checkOp` (K1 – K13) with the
+                   runs `M1.Mon.checkOp` (K1 – K15) with the
                    remembered op (`checkObsOnly` if none) and prints `ok` or `FAIL <tag>:<message>;<tag>:<message>…`;
                    prints `unparsed` if the line cannot be parsed (monitor state unchanged).
 
